@@ -120,6 +120,8 @@ func init() {
 				{Scenario: "c16_race", Params: mustJSON(ScrapeRaceParams{Against: "close"}), Bound: b, Shards: sh},
 				{Scenario: "c16_race", Params: mustJSON(ScrapeRaceParams{Against: "rebalance"}), Bound: b, Shards: sh},
 				{Scenario: "c16_race", Params: mustJSON(ScrapeRaceParams{Against: "open"}), Bound: b, Shards: sh},
+				{Scenario: "c12_afterrebalance", Params: mustJSON(AfterRebParams{OldServer: true, Dynamic: true, CountOnly: true}), Bound: 1, Shards: 8, Note: "server below 5.5.0, dynamic membership (immediate re-open): the asynchronous end of the last stream the old session closed must not lower the active-stream figure of the new session (every schedule within the bound)"},
+				{Scenario: "c12_afterrebalance", Params: mustJSON(AfterRebParams{Dynamic: true, CountOnly: true}), Bound: 1, Shards: 8},
 				{Scenario: "c16_infoduringopen", Params: mustJSON(struct{}{}), Bound: 1, Shards: 4, Note: "a new numbering published at every point of the Open() of the first and of a second session: membership and range gauges describe one assignment, the one the streams were opened for"},
 				{Scenario: "c16_race", Params: mustJSON(ScrapeRaceParams{Against: "scrape", Inject: true}), Bound: 1, Shards: 8, Note: "two overlapping scrapes of the one collector (a whole scrape injected at every point of another, plus one deviation): each reports a total lag equal to the sum of its own per-vBucket lags"},
 				{Scenario: "c16_race", Params: mustJSON(ScrapeRaceParams{Against: "scrape"}), Bound: b, Shards: sh, Note: "two overlapping scrapes under every schedule within the bound"},
